@@ -28,6 +28,11 @@ def run(ctx):
         runs, steps = (3, 250) if q else (4, 1500)
         ctx.record_and_trace("roll-%d" % i, binp, ["record-roll1", "--seed", str(ctx.seed * 100 + i), "--runs", str(runs),
                                                    "--steps", str(steps)], "TraceRoll", runs)
+    # wide windows (9..40): the streaming machine against the definitions far beyond the model-checked window sizes
+    for i in range(1 if q else 6):
+        runs, steps = (4, 200) if q else (6, 1200)
+        ctx.record_and_trace("roll-wide-%d" % i, binp, ["record-roll1", "--wide", "--seed", str(ctx.seed * 100 + 0 + 20 + i),
+                                                        "--runs", str(runs), "--steps", str(steps)], "TraceRoll", runs)
     ctx.assumptions += BASE_ASSUMPTIONS + [
         "plain family (ts_sum..ts_kurt, ts_fdiff) on null-free series only (DESIGN 5.7)",
         "skewness / kurtosis are bound by replay only: their exact denominators are too large to recover from a float "
